@@ -445,8 +445,10 @@ pub fn run_c08(o: &mut Out, tier: &str, seed: u64) {
                 corrupt_budget -= 1;
                 // one flipped bit anywhere in the ecdh field or in the commitment, and non-canonical commitment encodings
                 let mut e2 = e.clone(); let mut c2 = C;
-                let what = rng.below(4);
+                let what = rng.below(5);
                 match what {
+                    4 => { // the honest commitment shifted by a non-trivial small-order point: a different point, must not open
+                        let t = EIGHT_TORSION[rng.range(1, 7) as usize]; c2 = enc(&(commitment(&y, a) + t)); }
                     0 => { let b = rng.below(e2.len() as u64 * 8) as usize; e2[b / 8] ^= 1 << (b % 8); }
                     1 => { let b = rng.below(256) as usize; c2[b / 8] ^= 1 << (b % 8); }
                     2 => { let nc: Vec<u8> = rng.pick(&[ // identity / order-2 / order-4 points in non-canonical dress, and y = p + small
